@@ -251,6 +251,39 @@ def run(run, replay=None):
                         fails.append(("note-unfaithful", {"kind": "note-unfaithful", "note_kind": "rich"},
                                       {"line": l, "emitted": g, "headword": hw, "stems": stems}))
     stats["note_result_kinds"] = kinds
+    # ---- several parts of speech under ONE stem: each is converted on its own terms — the entries of `stem;∥A,B` are those of
+    # `stem;∥A` followed by those of `stem;∥B` (the implementation against itself; no model involved)
+    specs = ["ガ行五段(-ぐ)[gi]", "サ行五段(-がす)", "ア行下一(-える)", "名詞(-え)", "名詞", "形容詞(-い)", "マ行五段(-む)", "ラ行五段(-る)[r]",
+             "カ行五段(-く)", "サ変名詞", "副詞", "形容動詞[φ]", "ワ行五段(-う)", "タ行五段(-つ)[t]"]
+    heads = [("ゆる", "g", "揺"), ("かんが", "e", "考"), ("くし", "", "見"), ("たか", "i", "高"), ("おも", "", "思")]
+    trip = []
+    for hd_, ok_, st_ in heads:
+        for a_ in specs:
+            for b_ in specs:
+                if a_ != b_:
+                    mk = lambda sp_: "%s%s /%s;∥<base>%s/" % (hd_, ok_, st_, sp_)
+                    trip.append((mk(a_ + "," + b_), mk(a_), mk(b_)))
+    tl = ["skknote " + cl.cps(x) for t_ in trip for x in t_]
+    rc, out, err = run.run_harness(bindir, "impl_driver", input="\n".join(tl) + "\n")
+    tr = out.splitlines()
+    stats["multi_speech_lines"] = len(trip)
+    if rc == 0 and len(tr) == len(tl):
+        def ents(r_):
+            h_ = r_.split(" || ")[0].strip()
+            if not h_.startswith("some"):
+                return None
+            return [cl.from_cps(e.split(" ; ")[0]) for e in h_[5:].split(" ;; ")] if len(h_) > 5 else []
+        for i_, (ab, a_, b_) in enumerate(trip):
+            eab, ea, eb = ents(tr[3 * i_]), ents(tr[3 * i_ + 1]), ents(tr[3 * i_ + 2])
+            if eab is None or ea is None or eb is None:
+                continue
+            stats["multi_speech_compared"] = stats.get("multi_speech_compared", 0) + 1
+            if eab != ea + eb:
+                fails.append(("note-unfaithful", {"kind": "note-unfaithful", "note_kind": "several-speeches-one-stem"},
+                              {"line": ab, "emitted": eab, "each_speech_alone": [[a_, ea], [b_, eb]]}))
+                break
+            for g in eab:
+                emitted.append((g, ab))
     # ---- everything emitted must be a valid line of the dictionary text format, reading back the same -----------------------------
     em = list(dict.fromkeys(emitted))
     plines = ["parse " + cl.cps(g) for g, _ in em]
